@@ -1196,4 +1196,51 @@ class C07(Prop):
         return impl.startswith("SAME") and impl.rstrip().endswith("OK")
 
 
-PROPS = {p.id: p for p in [C06(), C19(), C11(), C16(), C13(), C10(), C15(), C09(), C12(), C14(), C07()]}
+
+# ---------------------------------------------------------------------------
+# C17: pipelines are selected and compiled independently
+# ---------------------------------------------------------------------------
+class C17(Prop):
+    id = "C17"
+    gens = ["GenPipelineUses"]
+    header = 1
+    n_quick = 10
+    n_thorough = 400
+    design_ref = "DESIGN.md §4 C17"
+    assumptions = [
+        "the driver model takes the front end's module and build_pipeline as parameters; that build_pipeline for one pipeline does not look at the other pipeline definitions is the source obligation C17_pipeline_list_uses (every read of Module::pipelines is at the selected index) plus the metamorphic comparison",
+        "P cases: compute pipelines only (which pipelines are compiled, in which order, which error); I cases: 1-4 pipelines of ten kinds (compute, vertex+pixel, mesh+pixel, task+mesh(+pixel)) sharing entry points and resources, whole file vs by name vs with the other Pipeline blocks removed, on HLSL (DirectX, Vulkan) and MSL, all four result fields",
+        "whether the front end itself is insensitive to the presence of other Pipeline blocks is only observed (I cases), not proved",
+    ]
+
+    def kind(self, case):
+        w = case.split()
+        if w[0] == "P":
+            return "P n=%d filter=%s nopipe=%s" % (len(w) - 3, "none" if w[1] == "-" else ("unknown" if w[1] == "Z" else "name"), w[2])
+        return "I n=%d %s" % (len(w[1].split(",")), w[2])
+
+    def comparable(self, case, impl, model):
+        return case.startswith("P ") and model is not None and not model.startswith("UNMODELLED")
+
+    def oracle(self, case, impl, model=None):
+        if impl.startswith("PANIC") or impl.startswith("TIMEOUT"):
+            return "compile aborted: " + impl
+        if impl.startswith("TARGETS-DISAGREE"):
+            return "the targets disagree on which pipelines are compiled: " + impl
+        if case.startswith("I "):
+            if impl.startswith("DIFF"):
+                return impl[5:400]
+            if impl.startswith("FAILS-TOGETHER"):
+                return "every pipeline compiles in a file of its own, the file with all of them does not: " + impl[15:300]
+        return None
+
+    def known_class(self, case, impl, model):
+        if case.startswith("I ") and case.rstrip().endswith(" Msl") and impl.startswith("FAILS-TOGETHER") and "InvalidPipelineForMeshIntrinsic" in impl:
+            return "msl-mesh-function-beside-other-pipeline"
+        return None
+
+    def nontrivial(self, case, impl):
+        return impl.startswith("OK ") or impl.startswith("SAME")
+
+
+PROPS = {p.id: p for p in [C06(), C19(), C11(), C16(), C13(), C10(), C15(), C09(), C12(), C14(), C07(), C17()]}
